@@ -203,7 +203,7 @@ SPEC = {
          'bounds': {'quick': _B + ' and n <= 2 and p1 == 1 and k2 == 0 and p2 == 0 and (not kbd or (n == 1 and p0 == 4)) and (not xml or (buf and n == 1))',
                     'thorough': _B + ' and (n == 1 or (not kbd and not xml)) and (n <= 1 or p1 <= 2) and (n <= 2 or (p1 == 1 and p2 == 1 and buf and k2 <= 8))'},
          'slices': {'quick': ['k0 == %d and %s' % (k, b) for k in range(17) for b in ('buf', 'not buf')],
-                    'thorough': ['k0 == %d and n == %d and %s' % (k, n, b) for k in range(17) for n in (1, 2, 3) for b in ('buf', 'not buf')]},
+                    'thorough': ['k0 == %d and n == %d and %s' % (k, n, b) for k in range(17) for n in (1, 2, 3) for b in ('buf', 'not buf') if not (n == 3 and b == 'not buf')]},
          'reach': 'streams_reach', 'reach_bounds': {'quick': _B + ' and n == 2 and p1 == 1 and k2 == 0 and p2 == 0 and buf and p0 == 4',
                                                     'thorough': _B + ' and n == 2 and p1 == 1 and k2 == 0 and p2 == 0 and buf and p0 == 4'},
          'timeout': {'quick': 240, 'thorough': 850},
